@@ -136,6 +136,15 @@ def handle (op : String) (args : List String) : Option Ans :=
              | .err => "err"
              | .panic => "panic"), "n/a")
     | _, _ => some ("n/a", "n/a")
+  -- `pwhash_objverify_str <s> <pwd>`: `PwHash::from_string(s)?.verify(pwd)` = `strVerifyRaw` (hashes into the stored hash's own length)
+  | "pwhash_objverify_str", [s, pwd] =>
+    match strOfHex s, ofHex pwd with
+    | some s, some pwd =>
+      some ((match strVerifyRaw s pwd with
+             | .ok () => "ok"
+             | .err => "err"
+             | .panic => "panic"), "n/a")
+    | _, _ => some ("n/a", "n/a")
   | "pwhash_str", [ops, mem, pwd, ent, _wrong] =>
     -- the model predicts the whole string: salt = the 16 bytes drawn from the entropy source
     match ops.toNat?, mem.toNat?, ofHex pwd, ofHex ent with
